@@ -24,7 +24,6 @@ import (
 	"sync"
 	"unsafe"
 
-	"github.com/cloudwego/frugal/internal/defs"
 	"github.com/cloudwego/gopkg/protocol/thrift"
 )
 
@@ -199,7 +198,7 @@ func decodeStringNoCopy(t *tType, b []byte, p unsafe.Pointer) (i int, err error)
 	}
 	i += 4
 	if l == 0 {
-		if t.Tag == defs.T_binary {
+		if t.isBinary() {
 			*(*[]byte)(p) = []byte{}
 		} else {
 			*(*string)(p) = ""
@@ -211,7 +210,7 @@ func decodeStringNoCopy(t *tType, b []byte, p unsafe.Pointer) (i int, err error)
 		return i, newSizeExceedsBufferException(l, len(b)-i)
 	}
 
-	if t.Tag == defs.T_binary {
+	if t.isBinary() {
 		*(*[]byte)(p) = unsafe.Slice(&b[i], l)
 	} else {
 		*(*string)(p) = unsafe.String(&b[i], l)
@@ -238,7 +237,7 @@ func (d *tDecoder) decodeType(t *tType, b []byte, p unsafe.Pointer, maxdepth int
 		}
 		i := 4
 		if l == 0 {
-			if t.Tag == defs.T_binary {
+			if t.isBinary() {
 				*(*[]byte)(p) = []byte{}
 			} else {
 				*(*string)(p) = ""
@@ -251,7 +250,7 @@ func (d *tDecoder) decodeType(t *tType, b []byte, p unsafe.Pointer, maxdepth int
 		}
 
 		x := d.Malloc(l, 1, 0)
-		if t.Tag == defs.T_binary {
+		if t.isBinary() {
 			*(*[]byte)(p) = unsafe.Slice((*byte)(x), l)
 		} else {
 			*(*string)(p) = unsafe.String((*byte)(x), l)
